@@ -25,9 +25,41 @@ def bootstrap():
     import logging, warnings
     warnings.filterwarnings('ignore', category=SyntaxWarning)
     logging.disable(logging.CRITICAL)
+    _install_line_coverage()
     import bromelia
     assert os.path.abspath(bromelia.__file__).startswith(os.path.abspath(REPO) + os.sep), bromelia.__file__
     return bromelia
+
+
+_COV = {"installed": False}
+
+
+def _install_line_coverage():
+    """Diagnostic only (VERIF_COV_DIR=<dir>): every source line of REPO/bromelia executed by this process is appended once to
+    <dir>/<pid>.lines.  Used by tools/coverage_report.py to find library code that no check reaches; never part of a verdict."""
+    d = os.environ.get("VERIF_COV_DIR")
+    if not d or _COV["installed"] or not hasattr(sys, "monitoring"):
+        return
+    _COV["installed"] = True
+    mon = sys.monitoring
+    try:
+        mon.use_tool_id(3, "verif-linecov")
+    except ValueError:
+        return
+    os.makedirs(d, exist_ok=True)
+    prefix = os.path.abspath(REPO).rstrip("/") + "/bromelia/"
+    fh = open(os.path.join(d, f"{os.getpid()}.lines"), "a", buffering=1)
+
+    def on_line(code, line):
+        if code.co_filename.startswith(prefix):
+            try:
+                fh.write(f"{code.co_filename[len(prefix):]}:{line}\n")
+            except Exception:
+                pass
+        return mon.DISABLE
+
+    mon.register_callback(3, mon.events.LINE, on_line)
+    mon.set_events(3, mon.events.LINE)
 
 
 def lib_errors():
